@@ -159,7 +159,8 @@ def gen_cases(seed, tier):
     imap.sort(key=lambda c: -(c['d'] * c['q'] * 2 ** (c['d'] * c['q'])))
     for _ in range(20 if quick else 200):
         imap.append({'kind': 'imap-large', 'd': int(rng.integers(1, 4)),
-            'q': int(rng.integers(11, 41)), 'seed': sd()})
+            'q': int(rng.integers(11, 41)) if rng.random() < 0.5
+            else int(rng.integers(41, 63)), 'seed': sd()})
     for n in NONPOW:
         imap.append({'kind': 'imap-reject', 'n': n, 'seed': sd()})
 
